@@ -164,7 +164,7 @@ pub fn utf8(r: &Rng, max: usize) -> Vec<u8> {
             1 => char::from_u32(0x800 + r.below(0xD000) as u32),
             2 => char::from_u32(0xE000 + r.below(0x1FFE) as u32),
             3 => char::from_u32(0x10000 + r.below(0x100000) as u32),
-            4 => Some(*r.pick(&['\u{0}', '\u{7f}', '\u{80}', '\u{7ff}', '\u{800}', '\u{ffff}', '\u{10000}', '\u{10ffff}', '\u{d7ff}', '\u{e000}'])),
+            4 => Some(*r.pick(&['\u{0}', '\u{7f}', '\u{80}', '\u{7ff}', '\u{800}', '\u{ffff}', '\u{10000}', '\u{10ffff}', '\u{d7ff}', '\u{e000}', '\u{fffd}', '\u{feff}', '\u{fffe}', ' ', '\t', '\n', '\r', '\u{a0}', '\u{2028}'])),
             _ => char::from_u32(0x20 + r.below(0x5f) as u32),
         };
         let c = match c {
@@ -1527,15 +1527,79 @@ fn utf8_stream(r: &Rng, out: &mut Out, n: usize, thorough: bool) {
     }
 }
 
+/// text through the crate's own decoders: every position where an AVP carries UTF-8 text, with well-formed
+/// strings the decoder must return unchanged (replacement character, BOM, noncharacters, NUL, white space at
+/// either end, the largest scalar value …) and ill-formed ones it must reject
+fn text_stream(r: &Rng, out: &mut Out, n: usize) {
+    let special: Vec<Vec<u8>> = vec![
+        vec![0xef, 0xbf, 0xbd], vec![0x61, 0xef, 0xbf, 0xbd, 0x62], vec![0xef, 0xbb, 0xbf, 0x61], vec![0xef, 0xbf, 0xbe],
+        vec![0xef, 0xbf, 0xbf], vec![0x00], vec![0x61, 0x00], vec![0x00, 0x61], vec![0x61, 0x00, 0x00], vec![0x20], vec![0x20, 0x61, 0x20],
+        vec![0x61, 0x0a], vec![0x0d, 0x0a], vec![0x09, 0x61], vec![0xc2, 0xa0, 0x61, 0xc2, 0xa0], vec![0xe2, 0x80, 0xa8],
+        vec![0xf4, 0x8f, 0xbf, 0xbf], vec![0xf4, 0x90, 0x80, 0x80], vec![0xed, 0x9f, 0xbf], vec![0xed, 0xa0, 0x80], vec![0xe0, 0xa0, 0x80],
+        vec![0xe0, 0x9f, 0xbf], vec![0xc0, 0x80], vec![0xc1, 0xbf], vec![0xc2, 0x80], vec![0x7f], vec![0x80], vec![0xff], vec![0x61, 0xc3],
+        vec![0xf0, 0x90, 0x80, 0x80], vec![0xf0, 0x8f, 0xbf, 0xbf], vec![0x61; 300], "a\u{fffd}".repeat(40).into_bytes(),
+    ];
+    // (attribute, fixed prefix in front of the text)
+    let positions: Vec<(u16, Vec<u8>)> = vec![
+        (8, vec![]), (21, vec![]), (22, vec![]), (23, vec![]), (7, vec![]),
+        (1, vec![0, 1, 0, 2]), (1, vec![0, 2, 0, 0]), (12, vec![0, 16, 3]),
+    ];
+    let mut emit = |text: &[u8], pos: &(u16, Vec<u8>), i: usize| {
+        let mut p = pos.1.clone();
+        p.extend_from_slice(text);
+        let total = 6 + p.len();
+        if total > 1023 {
+            return;
+        }
+        let mut rec = vec![((total >> 8) as u8) << 6 | 1, total as u8, 0, 0];
+        rec.extend_from_slice(&pos.0.to_be_bytes());
+        rec.extend_from_slice(&p);
+        if i % 2 == 0 {
+            out.push(format!("avps {}", hex(&rec)));
+        } else {
+            let img = assemble(0x1320, 1, 2, 3, 4, &[mt_record(r), rec]);
+            out.push(format!("dec 111 {}", hex(&img)));
+        }
+    };
+    let mut i = 0;
+    for t in special.iter() {
+        for pos in positions.iter() {
+            emit(t, pos, i);
+            emit(t, pos, i + 1);
+            i += 1;
+        }
+    }
+    for _ in 0..n {
+        let mut b = utf8(r, 1 + r.below(24));
+        if r.chance(1, 3) {
+            b = mutate(r, &b);
+        }
+        let pos = r.pick(&positions).clone();
+        emit(&b, &pos, i);
+        i += 1;
+    }
+}
+
 fn c19_stream(r: &Rng, out: &mut Out, n: usize) {
+    // a few secrets and random vectors that come back again and again, in changing order, with values of one
+    // and of many chunks: whatever a call leaves behind (a memoised key, a scratch buffer) gets its chance to
+    // show in a later call
+    let pool: Vec<Vec<u8>> = vec![r.bytes(5), r.bytes(16), r.bytes(1), vec![], r.bytes(70)];
+    let rvs: Vec<Vec<u8>> = vec![r.bytes(4), r.bytes(4), vec![0, 0, 0, 0]];
     for i in 0..n {
         match i % 6 {
             0 | 1 => out.push(format!("dec {} {}", opts(r), hex(&valid_image(r, false)))),
             2 => out.push(format!("dec {} {}", opts(r), hex(&mutate(r, &valid_image(r, false))))),
             3 => out.push(format!("enc . {}", gen_control(r, 6, false).render())),
             4 => {
-                let t = gen_avp_kind(r, ALL_KINDS[i % 39], false);
-                let (s, rv, lp, ap) = hide_args(r, payload_len(&t));
+                let t = if r.chance(1, 2) { gen_avp_kind(r, ALL_KINDS[i % 39], false) } else { gen_avp_kind(r, *r.pick(&BYTE_KINDS), true) };
+                let (mut s, mut rv, lp, ap) = hide_args(r, payload_len(&t));
+                if r.chance(4, 5) {
+                    s = r.pick(&pool).clone();
+                }
+                if r.chance(1, 2) {
+                    rv = r.pick(&rvs).clone();
+                }
                 out.push(format!("hr {} {} {} {} {}", t.render(), hex(&s), hex(&rv), hex(&lp), hex(&ap)));
             }
             _ => out.push(format!("enc . {}", gen_data(r, true).render())),
@@ -1565,6 +1629,7 @@ pub fn generate(prop: &str, tier: &str, seed: u64) -> Vec<String> {
                 }
             }
             utf8_stream(&r, &mut out, n(3000, 60000), thorough);
+            text_stream(&r, &mut out, n(4000, 80000));
         }
         "C06" => {
             enc_stream(&r, &mut out, n(15000, 300000), false, false);
@@ -1583,7 +1648,35 @@ pub fn generate(prop: &str, tier: &str, seed: u64) -> Vec<String> {
                 l += if thorough { 1 } else { 5 };
             }
         }
-        "C07" => enc_stream(&r, &mut out, n(8000, 150000), true, true),
+        "C07" => {
+            // every kind several times, and every value of the small enumerated fields: a length that is
+            // wrong for one value of one kind must not depend on the random stream happening to draw it
+            for k in ALL_KINDS.iter() {
+                for _ in 0..(if thorough { 60 } else { 16 }) {
+                    out.push(format!("enca . {}", gen_avp_kind(&r, k, true).render()));
+                }
+            }
+            for e in ERROR_TYPES.iter() {
+                for code in [0u16, 1, 2, 7, 65535] {
+                    out.push(format!("enca . ResultCode({},{:?},-)", code, e));
+                    out.push(format!("enca . ResultCode({},{:?},)", code, e));
+                    out.push(format!("enca . ResultCode({},{:?},{})", code, e, hex(b"x")));
+                }
+            }
+            for code in [0u16, 1, 16, 65535] {
+                out.push(format!("enca . ResultCode({},-,-)", code));
+                out.push(format!("enca . Q931CauseCode({},0,-)", code));
+                out.push(format!("enca . Q931CauseCode({},255,)", code));
+                out.push(format!("enca . Q931CauseCode({},3,{})", code, hex(b"NCC")));
+            }
+            for m in MESSAGE_TYPES.iter() {
+                out.push(format!("enca . MessageType({:?})", m));
+            }
+            for p in PROXY_TYPES.iter() {
+                out.push(format!("enca . ProxyAuthenType({:?})", p));
+            }
+            enc_stream(&r, &mut out, n(8000, 150000), true, true)
+        }
         "C08" => c08_stream(&r, &mut out, n(20000, 400000)),
         "C09" => {
             enc_stream(&r, &mut out, n(12000, 250000), true, false);
@@ -1596,6 +1689,38 @@ pub fn generate(prop: &str, tier: &str, seed: u64) -> Vec<String> {
             }
         }
         "C10" => {
+            // data messages over the 16 L/S/O/P combinations with the Length field around every boundary
+            // (below the header, exactly the header, one payload octet, the whole input, beyond it) and
+            // octets after the declared end
+            for bits in 0..16u16 {
+                let (l, s, o, p) = (bits & 1 != 0, bits & 2 != 0, bits & 4 != 0, bits & 8 != 0);
+                let w: u16 = 0x0020 | if l { 0x0200 } else { 0 } | if s { 0x1000 } else { 0 } | if o { 0x4000 } else { 0 } | if p { 0x8000 } else { 0 };
+                for dl in [0usize, 1, 2, 5] {
+                    for offv in [0u16, 1, 2] {
+                        let hdr = data_header_len(l, s, o);
+                        let total = hdr + dl;
+                        let lens: Vec<usize> = if l { (hdr.saturating_sub(2)..=total + 2).collect() } else { vec![0] };
+                        for lv in lens {
+                            let mut v = w.to_be_bytes().to_vec();
+                            if l {
+                                v.extend_from_slice(&(lv as u16).to_be_bytes());
+                            }
+                            v.extend_from_slice(&[0, 7, 0, 9]);
+                            if s {
+                                v.extend_from_slice(&[0, 1, 0, 2]);
+                            }
+                            if o {
+                                v.extend_from_slice(&offv.to_be_bytes());
+                            }
+                            v.extend((0..dl).map(|i| 0xa0 + i as u8));
+                            out.push(format!("fix {} {}", if bits % 2 == 0 { "111" } else { "000" }, hex(&v)));
+                        }
+                        if !o {
+                            break;
+                        }
+                    }
+                }
+            }
             for i in 0..n(25000, 500000) {
                 let b = match i % 5 {
                     0 => valid_image(&r, i % 4 == 0),
